@@ -19,7 +19,13 @@ impl CoinSelection for NaiveSelector {
             if utxo.assets.contains_some(&pending) {
                 matched.insert(utxo.clone());
                 let to_include = utxo.assets.clone();
-                pending = pending - to_include;
+
+                // a target that cannot even be subtracted from (amounts at the i128 limits) can
+                // not be covered by any set of UTxOs
+                pending = match pending.checked_sub(to_include) {
+                    Some(x) => x,
+                    None => return HashSet::new(),
+                };
             }
 
             if pending.is_empty_or_negative() {
